@@ -36,7 +36,13 @@ RULE = ('case = (device profile, operation, argument record). Operations: the 19
         'dispatch) as str and as element, the SAME call under all 14 profiles: tree oracle per profile, and across profiles the request is the one under the default profile modulo the '
         'envelope\'s namespace handling (R3 adoption; iosxe: un-namespaced <config> parameter in the base namespace). The hooks themselves (transform_edit_config of all 14 handlers) on '
         'arbitrary trees with 0-3 un-namespaced <config> direct children among envelope-named children: runner fn 12 (Builders.transform_edit_config) vs the handler, and an oracle: nothing but '
-        'the name of a direct un-namespaced <config> child may change.')
+        'the name of a direct un-namespaced <config> child may change. '
+        'Histories (tools/harness/histories.py): 3-6 calls on ONE Manager/session (30 histories per profile quick, 240 thorough, plus fixed ones) against a server whose :with-defaults URI is drawn '
+        '(basic-mode, any subset/order of also-supported, either parameter order, or absent): with_defaults from the basic mode, the also-supported modes, RFC modes not advertised and values outside the '
+        'set, repeated calls, filters, edit-config options, the other standard operations and the profile\'s vendor operations; every call must do what the same call does FIRST on a fresh session of the same '
+        'server (exception class, request tree), satisfy the single-call oracles with this server\'s advertised with-defaults set, and leave m.server_capabilities (URIs, namespace URI and parameters of every '
+        'capability, against an independent split of the advertised URIs) untouched; the retrievals are also run through CallHistory.history (runner fn 13). One-shot iterables: the list arguments the vendor '
+        'classes iterate over (nexus exec_command cmds, alu get_configuration cli filter) given as generator / iterator / map / tuple must send what the list sends.')
 ASSUMES = ['vendor classes: Python verdicts int(timeout) (junos commit) and bool(comment.strip()) (sros commit) are inputs of the model; caller fragments of vendor calls do not use the base namespace (that class is the open finding envelope_namespace_binding_shadowed, one explicit huawei case); junos timeouts within +-10^12 (binary64 division is exact there)',
            'the server advertises every capability (gating is C09); with-defaults lists the four RFC 6243 modes',
            'lxml verdicts on element names are oracle inputs (catalogue); documents are parsed for the model by the independent reader',
@@ -1153,6 +1159,8 @@ def run(ctx):
     run_cases(ctx, gen_cases(ctx.rng, ctx.tier))
     from harness import carries          # C07_carries: template instances vs captured requests; one-argument-varied pairs (frame oracle)
     carries.run(ctx)
+    from harness import histories        # 3-6 calls on ONE manager: every call as if it were the first; server capabilities untouched; one-shot iterables
+    histories.run(ctx)
 
 def search(ctx, seeds):
     from harness import vendorops
@@ -1177,11 +1185,14 @@ def search(ctx, seeds):
         except Exception:
             continue
         if j and not findings.covered(ID, j[1]): return dict(case=json.loads(key_of(case)), what=j[0], sig=j[1], expected='schema instance / local rejection', actual={'exc': r['exc'], 'sent': [x[:400] for x in r['sent']]})
-    from harness import carries
-    return carries.search(ctx)
+    from harness import carries, histories
+    return carries.search(ctx) or histories.search(ctx)
 
 def reproduce(finding):
     case = finding['witness']
+    if 'history' in case:
+        from harness import histories
+        return bool(histories.judge(case))
     if 'carries_pair' in case:
         from harness import carries
         return carries.reproduce(case)
@@ -1205,6 +1216,9 @@ def replay(doc):
     if doc.get('case', {}).get('check') == 'enum_with_defaults':
         return _replay_enum(doc['case'])
     case = doc['case']
+    if 'history' in case:
+        from harness import histories
+        return histories.replay(case)
     if 'carries_pair' in case:
         from harness import carries
         return carries.replay(case)
